@@ -121,6 +121,28 @@ def run(ctx):
         ev += rescorr.threaded_equals_serial(conc, ser, lambda c_, obs: bad(
             "a simulation that runs while others run in other threads (own objects, own arrays, same node count) is not the simulation it is when run alone - it does not solve the documented problem",
             dict(kind=c_["kind"], nx=c_["nx"], nt=len(c_["times"]), p_frac_over_p_initial=c_["pf"] / c_["pi"], simulated="concurrently with 4 other runs, one thread each"), obs), rounds=2, workers=5)
+    # ---------------- user subclasses that override the documented hook `alpha_scaled` (a law on the ideal class, another table's
+    # diffusivity on the single-phase class) and inherit `simulate`: the scheme must be the scheme FOR THAT LAW at every step - compared
+    # with the float instance of the model (ReservoirUser.idu_simulate / Reservoir.simulate_single, which take the law as a parameter;
+    # the convergence theorems are stated for an arbitrary non-negative law)
+    ship_u = rescorr.shipped_gas(stride=12)
+    ship_u = dict(ship_u, alpha=1.0 / (np.asarray(ship_u["compressibility"], float) * np.asarray(ship_u["viscosity"], float)))
+    user_cases = []
+    for j_, law_ in enumerate(([0.25, 0.75], [1.6, -0.9])):
+        for grid_ in ("uniform", "quadratic"):
+            tg_ = np.linspace(0, 0.6, 30) if grid_ == "uniform" else np.linspace(0, np.sqrt(0.6), 30) ** 2
+            user_cases.append(dict(kind="ideal", pi=8000.0, pf=800.0 + 3000.0 * j_, nx=16 + 9 * j_, times=tg_, grid=grid_, law=law_))
+        user_cases.append(dict(kind="single", table=ship_u, table_kind="shipped", pi=8000.0, pf=800.0 + 3000.0 * j_, nx=16 + 9 * j_,
+                               times=np.linspace(0, 2.0, 30) if j_ else np.linspace(0, np.sqrt(2.0), 30) ** 2, grid="uniform" if j_ else "quadratic", override=True))
+    user_impls = [rescorr.run_impl(c_) for c_ in user_cases]
+    ev += len(user_cases)
+    for c_, im_, r_ in zip(user_cases, user_impls, rescorr.run_cases(ctx, user_cases, user_impls, "C02user", shard=3, with_resid=False)):
+        if "field" not in im_:
+            bad("simulation fails for a user subclass that overrides alpha_scaled", rescorr.describe(c_), im_.get("error"))
+        elif r_ is not None and not (r_[0] <= 1e-6 and r_[1] <= 1e-6):
+            ctx.violations.append(dict(what="a user subclass that overrides the documented hook alpha_scaled does not get the scheme for its own diffusivity law: "
+                                            "its stored field differs from the model's (which consults the law at every step)",
+                                       key="user-law", input=rescorr.replay_payload(c_), observed=dict(max_abs_diff_field=r_[0], max_abs_diff_recovery=r_[1])))
     # ---------------- pressure-dependent diffusivity: independent method-of-lines reference
     tables = [("shipped", rescorr.shipped_gas(stride=6))] + ([] if ctx.quick else [("ideal-gas", rescorr.synth_table("ideal", 80)), ("haynesville", rescorr.shipped_haynesville(stride=8))])
     # the same table with its rows listed by decreasing pressure must give the same answers (the library's lookups sort)
